@@ -527,8 +527,12 @@ func (e *engine) subsets(p *parserDef, m message, label string, masks []uint64, 
 				sh = append(sh, m[i].name)
 			}
 		}
-		e.r.Note("%s [%s]: panics exactly when one of {%s} is absent (required fields present; no panic when {%s} is absent: the parser gives up earlier); outcomes not explained by that rule: %d %s",
-			p.name, label, strings.Join(names, ","), strings.Join(sh, ","), unexplained, ex)
+		shTxt := ""
+		if len(sh) > 0 {
+			shTxt = "; no panic when {" + strings.Join(sh, ",") + "} is absent as well: the parser gives up earlier"
+		}
+		e.r.Note("%s [%s]: panics exactly when one of {%s} is absent (required fields present%s); outcomes not explained by that rule: %d %s",
+			p.name, label, strings.Join(names, ","), shTxt, unexplained, ex)
 		e.mu.Lock()
 		for sig, cul := range culBySig {
 			if rec := e.panics[sig]; rec != nil {
@@ -662,7 +666,9 @@ var codecs = []*codec{
 			}
 			return v, e
 		},
-		diff: func(a, b interface{}) (string, string) { return diffHeader(a.(*types.BlockHeader), b.(*types.BlockHeader)) }},
+		diff: func(a, b interface{}) (string, string) {
+			return diffHeader(a.(*types.BlockHeader), b.(*types.BlockHeader))
+		}},
 	{typ: "tx", mName: "MarshalTransaction", uName: "UnMarshalTransaction",
 		gen:       func(rng *rand.Rand, a bool) interface{} { return genTx(rng, a) },
 		marshal:   func(v interface{}) ([]byte, error) { return types.MarshalTransaction(v.(*types.Transaction)) },
@@ -945,8 +951,8 @@ func (e *engine) hostileTypes() {
 		pGroup:  {groupMsg(goodGH, 0).all(), groupMsg(groupHeaderMsg(1).all(), 1).all()},
 		pMember: {memberMsg().all()},
 	}
-	nMut := r.Pick(12000, 700000)
-	nRand := r.Pick(12000, 700000)
+	nMut := r.Pick(12000, 2000000)
+	nRand := r.Pick(12000, 2000000)
 	for _, p := range typeParsers {
 		for vi, vb := range valid[p] {
 			e.runList(p, mutations(vb, 0, nil, fmt.Sprintf("%s valid#%d ", p.typ, vi)), nil)
